@@ -23,7 +23,7 @@ def tlc_sps(exports, name, timeout=6000):
     return res, wf, results
 
 
-WF_KEYS = ["RootClosed", "BlocksClosed", "LabelsUnique", "BranchJoin", "OwnerCount", "NoHoles", "AsmTargets", "AsmSymbols", "AsmLayouts"]
+WF_KEYS = ["RootClosed", "BlocksClosed", "LabelsUnique", "BranchJoin", "OwnerCount", "NoHoles", "AsmTargets", "AsmSymbols", "AsmLayouts", "EntryCallsAligned"]
 
 
 def run(prop, tier):
